@@ -7,9 +7,10 @@ sys.path.insert(0, os.path.join(os.path.dirname(os.path.abspath(__file__)), '..'
 import output_proofs  # noqa: E402
 import tokenizer_proofs  # noqa: E402
 import outtext_proofs  # noqa: E402
+import end_proof  # noqa: E402
 NEED_OPTIONS = True
 PROOFS = (output_proofs.select(['add_spaces', 'add_char', 'next_tab_column', 'calc_next_tab_column_ts*']) +
-          tokenizer_proofs.select(['tok_layout', 'parse_whitespace', 'parse_newline', 'parse_bs_newline', 'parse_off_newlines', 'tokenize_tail']) + [outtext_proofs.iteration_proof()])
+          tokenizer_proofs.select(['tok_layout', 'parse_whitespace', 'parse_newline', 'parse_bs_newline', 'parse_off_newlines', 'tokenize_tail']) + [outtext_proofs.iteration_proof(), end_proof.end_proof()])
 EXPLANATION = ('Kernel of C08. Output side: add_char() is proved (full functional contract, recursion and both tab-expansion loops closed) never to '
                'hand CR or LF to write_char; every line break is exactly one write_string(cpd.newline); a lone CR and a CR LF pair each give one break. '
                'Input side: parse_whitespace() counts LF / CR LF / lone CR terminators exactly (ghost-index census), the tail of tokenize() selects '
@@ -17,6 +18,7 @@ EXPLANATION = ('Kernel of C08. Output side: add_char() is proved (full functiona
 K = ['K1 add_char/add_spaces: no raw CR/LF reaches write_char; LF -> pending blanks + one NL item; CR -> nothing; lone CR -> one NL item',
      'K2 parse_whitespace census of LF / CRLF / CR', 'K3 tokenize() tail: choice of cpd.newline', 'K4 parse_newline / parse_bs_newline / parse_off_newlines consume whole terminators',
      'K6 output_text (one iteration): a CT_NEWLINE chunk is exactly nl_count add_char(LF) calls, a CT_NL_CONT chunk is add_char(backslash) then add_char(LF); nothing but add_char writes a line break from output_text',
+     'K7 uncrustify_end: the terminator census cpd.le_counts is cleared after every file, and nowhere else in between (newlines=auto counts this file only)',
      'K5 tab stops: calc_next_tab_column for each tab size 1..32, columns < 2^32']
 G = ['comment writers (output_comment_*) pass comment-internal CR/LF through add_char and never hand a TAB to add_char directly after a CR (call-site precondition of add_char_contract)',
      'add_text(is_ignored=true) bypasses add_char; sound for C08 only because ignored chunks contain no CR/LF (parse_ignored line path, not yet under contract)',
